@@ -219,6 +219,30 @@ fn check_op(sop: &SOp, proto: &[u8], obs: &mut Obs) -> Verdict {
     if cap.ops() != [op] {
         return Verdict::Fail(format!("{:?}.apply_to_hook(Capture) captured {:?}", op, cap.ops()));
     }
+    // ... and the hook call itself, seen by the harness' own recording hook (with and without a
+    // replace override)
+    {
+        let mut rec = Recorder::new();
+        op.apply_to_hook(&mut rec).unwrap();
+        let want_ev = match *sop {
+            SOp::Equal(a, b, l) => Ev::Equal(a, b, l),
+            SOp::Delete(a, l, b) => Ev::Delete(a, l, b),
+            SOp::Insert(a, b, l) => Ev::Insert(a, b, l),
+            SOp::Replace(a, al, b, bl) => Ev::Replace(a, al, b, bl),
+        };
+        if rec.events != [want_ev] {
+            return Verdict::Fail(format!("{:?}.apply_to_hook called {:?} on the hook, expected {:?}", op, rec.events, want_ev));
+        }
+        let mut rec2 = RecorderNoReplace(Recorder::new());
+        op.apply_to_hook(&mut rec2).unwrap();
+        let want2 = match want_ev {
+            Ev::Replace(a, al, b, bl) => vec![Ev::Delete(a, al, b), Ev::Insert(a, b, bl)],
+            e => vec![e],
+        };
+        if rec2.0.events != want2 {
+            return Verdict::Fail(format!("{:?}.apply_to_hook on a hook without replace override: {:?}, expected {:?}", op, rec2.0.events, want2));
+        }
+    }
     let (ol, nl) = (want_tuple.1.len(), want_tuple.2.len());
     obs.nontrivial = want_tuple.1.start != want_tuple.2.start && (!matches!(op, DiffOp::Replace { .. }) || ol != nl);
     obs.class(match op {
